@@ -1,0 +1,21 @@
+//go:build verif
+
+// Contracts for package config (scenario description), checked by /verif/govc. Comment-only: no code.
+package config
+
+// "name", "name(n)", "name(n, sleep)": count defaults to 1, sleep to 0; anything else is an error.
+//@ func ParseShootName
+//@ props C13 C15
+//@ modifies nothing
+//@ ensures [plain-name-runs-once] imp(result3 == nil && len(result_of(str.ParseStringFunc, 1)) == 0, result1 == 1 && result2 == 0)
+//@ ensures [name-as-written] imp(result3 == nil, result0 == result_of(str.ParseStringFunc, 0))
+//@ ensures [parse-failure-is-an-error] imp(result_of(str.ParseStringFunc, 2) != nil, result3 != nil)
+
+// Scenario multiplicities: weight divided by the common divisor of all weights. No fault and no negative count for any weights.
+//@ func SpreadNames
+//@ props C13 C15
+//@ nilsafe
+//@ loop 0 invariant len(weights) == len(input) && forall(k, 0, rangeidx, weights[k] > 0 && input[k].Weight == weights[k])
+//@ loop 1 invariant total >= 0 && div > 0 && forall(k, 0, len(input), input[k].Weight >= div) && names != nil
+//@ ensures [total-is-a-size] result1 >= 0
+//@ ensures [single-scenario-has-multiplicity-1] imp(len(input) == 1, result1 == 1)
